@@ -12,8 +12,8 @@
   The theorems that need the last clause carry the suffix `_partial`; the statements without it
   are `…_full` and are refuted by a concrete link set.
 
-  The model contains the repairs proposed in proposed/F-16b-view.md, F-16c-view.md, F-17a.md …
-  F-17d.md; on the unpatched code the corresponding input classes are known findings.
+  The model is the code as it stands (after the fixes of F-16b, F-16c, F-17a … F-17d, the six
+  defects this check found; see proposed/F-16b-view.md … F-17d.md).
 -/
 import Signac.Proofs.ViewUpdate
 import Signac.Proofs.ViewChecks
